@@ -31,7 +31,7 @@ fn check_radix_value<const RADIX: u8>(bytes: &[u8]) {
         Ok(x) => {
             assert!(!bytes.is_empty() && bad.is_none(), "Ok only for a non-empty string of digits");
             assert!(x == value as f64, "value is the exact integer");
-            kani::cover!(value > 0xFFFF, "more than four significant hex digits");
+            kani::cover!(value > 0xFFF, "more than three significant hex digits");
             kani::cover!(bytes[0] == b'0' && value > 0, "leading zeros ignored");
         }
         Err(ParseNumRadixError::Empty) => assert!(bytes.is_empty(), "Empty only for the empty string"),
@@ -45,7 +45,7 @@ fn check_radix_value<const RADIX: u8>(bytes: &[u8]) {
     }
 }
 
-// @harness id=c20_radix_hex_value props=C20,C18,C01 tier=quick cap=1500
+// @harness id=c20_radix_hex_value props=C20,C18,C01:thorough tier=quick cap=1500
 // @desc parse_num_radix::<16> (std.parseHex) on every valid-UTF-8 string of 0..=5 bytes: Ok(x) iff the string is a non-empty sequence of hex digits and x is its exact integer value; otherwise Empty or InvalidDigit(first offending character); never a panic
 // @bound strings of 0..=5 arbitrary bytes (symbolic length); unwind 8
 // @funcs parse_num_radix::<16>
@@ -58,7 +58,7 @@ fn c20_radix_hex_value() {
     check_radix_value::<16>(&buf[..len]);
 }
 
-// @harness id=c20_radix_oct_value props=C20,C18,C01 tier=quick cap=1500
+// @harness id=c20_radix_oct_value props=C20,C18,C01:thorough tier=quick cap=1500
 // @desc parse_num_radix::<8> (std.parseOctal) on every valid-UTF-8 string of 0..=5 bytes against the same reference (digits 8 and 9 are invalid)
 // @bound strings of 0..=5 arbitrary bytes
 // @funcs parse_num_radix::<8>
@@ -72,23 +72,20 @@ fn c20_radix_oct_value() {
 }
 
 fn check_radix_cut<const RADIX: u8, const PREFIX: usize, const TOTAL: usize>() {
-    // PREFIX concrete '1' digits followed by 4 arbitrary bytes: the 128-bit cut (32 hex / 42 octal digits)
-    // falls inside the arbitrary region, so a multi-byte character can straddle it.
+    // PREFIX concrete '1' digits followed by (TOTAL - PREFIX) arbitrary bytes, concrete total length: the 128-bit
+    // cut (32 hex / 42 octal digits) falls inside the arbitrary region, so a multi-byte character can straddle it.
     let mut buf = [b'1'; TOTAL];
-    let tail: [u8; 4] = kani::any();
-    let mut i = 0;
-    while i < 4 {
-        buf[PREFIX + i] = tail[i];
+    let mut i = PREFIX;
+    while i < TOTAL {
+        buf[i] = kani::any();
         i += 1;
     }
-    let len: usize = kani::any();
-    kani::assume(len >= PREFIX && len <= TOTAL);
-    let Ok(s) = core::str::from_utf8(&buf[..len]) else { return };
+    let Ok(s) = core::str::from_utf8(&buf) else { return };
     let all_digits = {
         let mut ok = true;
         let mut k = PREFIX;
         while k < TOTAL {
-            if k < len && ref_digit(buf[k], RADIX as u32).is_none() {
+            if ref_digit(buf[k], RADIX as u32).is_none() {
                 ok = false;
             }
             k += 1;
@@ -100,7 +97,7 @@ fn check_radix_cut<const RADIX: u8, const PREFIX: usize, const TOTAL: usize>() {
         Ok(x) => {
             assert!(all_digits, "Ok only for digit strings");
             assert!(x.is_finite() && x > 0.0, "finite positive value");
-            kani::cover!(len == TOTAL, "longest string accepted");
+            kani::cover!(true, "digit string beyond the cut accepted");
         }
         Err(ParseNumRadixError::InvalidDigit(c)) => {
             assert!(!all_digits, "InvalidDigit only if there is a non-digit");
@@ -111,21 +108,31 @@ fn check_radix_cut<const RADIX: u8, const PREFIX: usize, const TOTAL: usize>() {
 }
 
 // @harness id=c20_radix_hex_cut props=C20,C18,C01 tier=quick cap=1500
-// @desc parse_num_radix::<16> on 30 hex digits followed by up to 4 arbitrary bytes (valid UTF-8): no panic although the 32-digit (128-bit) cut falls inside the arbitrary region (a multi-byte character may straddle byte 32); Ok iff all digits
-// @bound 30 fixed digits + 0..=4 arbitrary bytes; unwind 40
+// @desc parse_num_radix::<16> (std.parseHex) on 31 hex digits followed by 2 arbitrary bytes (valid UTF-8): no panic although the 32-digit (128-bit) cut falls inside the arbitrary region (a two-byte character straddles byte 32); Ok iff all digits, otherwise the offending character is reported
+// @bound 31 fixed digits + 2 arbitrary bytes (length 33); unwind 36
 // @funcs parse_num_radix::<16>
 #[kani::proof]
-#[kani::unwind(40)]
+#[kani::unwind(36)]
 fn c20_radix_hex_cut() {
-    check_radix_cut::<16, 30, 34>();
+    check_radix_cut::<16, 31, 33>();
 }
 
-// @harness id=c20_radix_oct_cut props=C20,C18,C01 tier=quick cap=1500
-// @desc parse_num_radix::<8> on 40 octal digits followed by up to 4 arbitrary bytes: no panic around the 42-digit cut; Ok iff all digits
-// @bound 40 fixed digits + 0..=4 arbitrary bytes; unwind 50
+// @harness id=c20_radix_hex_cut3 props=C20,C18 tier=thorough cap=2700
+// @desc as c20_radix_hex_cut with 30 fixed digits + 3 arbitrary bytes (a three-byte character straddling byte 32)
+// @bound 30 fixed digits + 3 arbitrary bytes
+// @funcs parse_num_radix::<16>
+#[kani::proof]
+#[kani::unwind(36)]
+fn c20_radix_hex_cut3() {
+    check_radix_cut::<16, 30, 33>();
+}
+
+// @harness id=c20_radix_oct_cut props=C20,C18,C01:thorough tier=quick cap=1500
+// @desc parse_num_radix::<8> (std.parseOctal) on 41 octal digits followed by 2 arbitrary bytes: no panic around the 42-digit cut; Ok iff all digits
+// @bound 41 fixed digits + 2 arbitrary bytes (length 43); unwind 46
 // @funcs parse_num_radix::<8>
 #[kani::proof]
-#[kani::unwind(50)]
+#[kani::unwind(46)]
 fn c20_radix_oct_cut() {
-    check_radix_cut::<8, 40, 44>();
+    check_radix_cut::<8, 41, 43>();
 }
